@@ -196,7 +196,8 @@ def diagnose(c, o, clause):
             return "scattered-subworkflow-independent-step"
         if "conditional-subworkflow-independent-step" in fs and d in ("value-differs", "elements-differ"):
             return "conditional-subworkflow-independent-step"
-        if "dup-source" in fs and d in ("elements-missing", "value-differs", "elements-differ"):
+        if "dup-source" in fs and d in ("elements-missing", "value-differs", "elements-differ",
+                                          "same-elements-different-nesting"):
             return "dup-source-dropped"
         if "nested-crossproduct" in fs and d == "same-elements-different-nesting":
             return "empty-nested-crossproduct"
